@@ -83,6 +83,16 @@ static bool rec_free(void *p, int fkind)
             mprotect(blocks[i].base, blocks[i].maplen, PROT_NONE); // use after free faults
             return true;
         }
+    // not the start of a live recorded block: a pointer into a recorded block (interior pointer), or the start of a block
+    // already released (double release) is an event of its own - never handed to the real allocator
+    for (int i = nblocks - 1; i >= 0; i--)
+        if ((uint8_t *)p >= blocks[i].base && (uint8_t *)p < blocks[i].base + blocks[i].maplen)
+        {
+            if (evf)
+                fprintf(evf, "{\"e\":\"badfree\",\"sc\":%ld,\"kind\":\"%s\",\"id\":%ld,\"why\":\"%s\"}\n", scenario_id, FKIND[fkind], blocks[i].id,
+                        blocks[i].user == p ? "block already released" : "pointer inside a block, not its start");
+            return true;
+        }
     return false;
 }
 extern "C" void *__wrap_malloc(size_t n) { return window ? rec_alloc(n, 0) : __real_malloc(n); }
@@ -238,6 +248,7 @@ static void run_scenario(const char *tracefile, long ci, const std::vector<std::
     for (int fill = 0; fill < 2; fill++)
     {
         evf = fopen(tracefile, "a");
+        setvbuf(evf, nullptr, _IOLBF, 1 << 16); // whole records only: a fault in the library must not tear a record
         scenario_id = ci * 2 + fill;
         fill_byte = fill ? 0x5B : 0xA7;
         fprintf(evf, "{\"e\":\"begin\",\"sc\":%ld,\"ci\":%ld,\"fill\":%d}\n", scenario_id, ci, fill);
